@@ -19,7 +19,7 @@ CHECKS = {
         "rule": "an evaluation = one vgrad call compared with the reference; non-trivial = more than one worker thread and more "
                 "than one chunk, so that per-thread accumulators are actually combined",
         "assumptions": [],
-        "deadline": {"quick": 300, "thorough": 1800},
+        "deadline": {"quick": 600, "thorough": 2400},
         "stages": [
             {"name": "linear", "timing_dependent": True, "harness": "c09_objectives", "args": ["--stage", "linear"], "share": 0.4, "crash_is_violation": True,
              "what": "linear::function_t value/gradient vs mean loss + l1 mean|W| + l2/2 mean W^2"},
